@@ -181,6 +181,8 @@ def gen_spawn(d: D, prof: dict, depth: int, op: Optional[dict] = None) -> dict:
         op["n"] = n_hint = d.i(0, prof["max_elems"])
         if d.p(0.85):
             op["nc"] = d.i(1, prof["max_nc"])
+        if d.p(0.35):
+            op["shapes"] = [d.i(0, 4) for _ in range(d.i(1, 3))]
         if d.p(prof.get("p_iter_raise", 0.0)) and op["n"]:
             op["iter_raise_at"] = d.i(0, op["n"] - 1)
             op["fault_kind"] = d.i(0, 4)
